@@ -25,7 +25,7 @@ import scopes, c15, c06
 LEVEL = 'other'
 EXPLANATION = __doc__
 ASSUMPTIONS = ['completion mode is entered only through Args::set_comp or the --bpaf-complete-rev marker']
-FLOORS = {'P.precedence': 5, 'N.no-late-none': 2, 'H.hide': 9, 'E.hints': 9, 'W.wrappers': 4, 'D.dispatch': 5}
+FLOORS = {'P.precedence': 5, 'N.no-late-none': 2, 'H.hide': 9, 'E.hints': 9, 'W.wrappers': 4, 'D.dispatch': 5, 'L.last-item': 1}
 
 def run(ctx):
     cfgs = ['all', 'ac'] if ctx.tier == 'quick' else ['all', 'ac', 'autocomplete,docgen', 'autocomplete,dull-color']
@@ -34,6 +34,7 @@ def run(ctx):
         fs = ctx.facts(cfg)
         ctx.guard(precedence, ctx, cfg, fs)
         ctx.guard(no_late_none, ctx, cfg, fs)
+        ctx.guard(last_index_tests, ctx, cfg, fs)
         ctx.guard(hide, ctx, cfg, fs)
         ctx.guard(hints, ctx, cfg, fs)
         ctx.guard(wrappers, ctx, cfg, fs)
@@ -66,6 +67,43 @@ def precedence(ctx, cfg, fs):
     # the state inspected is the one the inner parser worked on
     sid = scopes.state_id(b, cc[0].args[0], cc[0].bb)
     ctx.ob('P.precedence', 'run_subparser:check_complete-on-caller-state', sid == 'args', 'check_complete inspects the caller\'s state (%s)' % (sid,), where=cc[0].where(), cfg=cfg)
+
+def last_index_tests(ctx, cfg, fs):
+    """`ix + 1 == n` asks "is this the last element?" only if n is the length of the very collection ix enumerates.
+    (The keep/drop decision between alternatives treats a last item of "", "-" or "--" specially; comparing the index
+    with the number of REMAINING items instead makes that depend on what was consumed earlier on the line.)"""
+    IT = DEFAULT_THROUGH + [r'slice::<impl \[T\]>::iter$', r'IntoIterator>?::into_iter$', r'Iterator>?::(enumerate|by_ref|copied|cloned)$', r'Vec::<.*>::as_slice$']
+    def base(b, op, bb, ix='term'):
+        rs = provenance(b, op, bb, ix, through=IT)
+        return sorted({(r.kind, str(r.what), tuple(r.path)) for r in rs})
+    n = 0
+    for b in sorted(fs.bodies.values(), key=lambda x: x.path):
+        if not re.search(r'^structs::this_or_that_picks_first$|^complete_gen::|^complete_run::', outer(b.path)):
+            continue
+        for sw in switches(b):
+            if sw.kind != 'bool': continue
+            for r in sw.roots:
+                if r.kind != 'bin' or r.extra['op'] not in ('Eq', 'Ne'):
+                    continue
+                for (x, y) in ((r.extra['a'], r.extra['b']), (r.extra['b'], r.extra['a'])):
+                    xs = provenance(b, x, r.site[0], r.site[1], through=None)
+                    if not (xs and all(q.kind == 'bin' and q.extra['op'].startswith('Add') and (op_const(q.extra['b']) or {}).get('v') == 1 for q in xs)):
+                        continue
+                    idx = [z for q in xs for z in provenance(b, q.extra['a'], q.site[0], q.site[1], through=None)]
+                    if not (idx and all(z.kind == 'call' and z.call.is_(r'Enumerate<.*>.*::next$') and z.path[-1:] == ['0'] for z in idx)):
+                        continue
+                    coll = sorted({c_ for z in idx for c_ in base(b, z.call.args[0], z.call.bb)})
+                    ys = provenance(b, y, r.site[0], r.site[1], through=None)
+                    lens = [q for q in ys if q.kind == 'call' and q.call.is_(r'::len$')]
+                    if not lens or len(lens) != len(ys):
+                        continue
+                    n += 1
+                    of = sorted({c_ for q in lens for c_ in base(b, q.call.args[0], q.call.bb)})
+                    ok = all(q.call.is_(r'slice::<impl \[T\]>::len$', r'Vec::<.*>::len$') for q in lens) and of == coll
+                    ctx.ob('L.last-item', '%s:index-vs-own-length' % short(b.path), ok,
+                           '%s: `index + 1 == len` compares an index into %s with the length of %s (%s)' % (short(b.path), coll, of, sorted({short(q.call.name) for q in lens})), where=b.where(sw.b), cfg=cfg)
+    if n == 0:
+        raise Broken('no "last element" test found in the alternative / completion code')
 
 def no_late_none(ctx, cfg, fs):
     b = ctx.look(fs.one(r'complete_gen::.*check_complete$'))
@@ -121,6 +159,11 @@ def hide(ctx, cfg, fs):
             continue
         ok = len(sw) == 2 and len(stash) == 1 and len(ev) == 1 and b.dominates(sw[0].bb, ev[0].bb) != b.dominates(sw[1].bb, ev[0].bb)
         ctx.ob('H.hide', '%s:bracket' % nm, ok, '%s swaps the hint list out before and back after the inner eval, using one stash (%d swaps, %d stash locals)' % (nm, len(sw), len(stash)), where=b.where(), cfg=cfg)
+        if ok:
+            after = [c for c in sw if b.dominates(ev[0].bb, c.bb)]
+            leaks = [r_ for r_ in b.return_blocks() if after and ev[0].target is not None and r_ in reachable_edges(b, ev[0].target, avoid=[after[0].bb])]
+            ctx.ob('H.hide', '%s:restored-on-every-exit' % nm, bool(after) and not leaks,
+                   '%s: every return after the inner eval passes the swap that puts the outer hint list back (also when the inner parser failed): %d return(s) bypass it' % (nm, len(leaks)), where=b.where(), cfg=cfg)
         if not stash:
             continue
         st_local = list(stash)[0]
